@@ -13,7 +13,11 @@ package main
 // retained / handed back / have disappeared) checks the clauses of the property directly.
 
 import (
+	"bytes"
+	"encoding/json"
 	"fmt"
+	"os"
+	"os/exec"
 	"sort"
 	"strconv"
 	"strings"
@@ -39,8 +43,7 @@ type c14Input struct {
 
 var c14KindName = map[string]string{"L": "LRU", "F": "FIFO", "R": "Random", "SL": "Stats(LRU)", "SF": "Stats(FIFO)", "SR": "Stats(Random)"}
 
-const c14CallTimeout = 2 * time.Second
-
+const c14CallTimeout = 1500 * time.Millisecond
 
 func c14New(kind string, n int) (bgzf.Cache, cache.Cache, *cache.StatsRecorder) {
 	var in cache.Cache
@@ -83,7 +86,7 @@ func newC14Env(c *ctx, res *Result) *c14Env {
 	return e
 }
 
-func (e *c14Env) guard(d time.Duration, f func()) callOutcome {
+func (e *c14Env) guard(d time.Duration, prog *int32, f func()) callOutcome {
 	if e.w == nil {
 		w := &c14Worker{req: make(chan func()), done: make(chan callOutcome, 1)}
 		go func() {
@@ -99,18 +102,32 @@ func (e *c14Env) guard(d time.Duration, f func()) callOutcome {
 		e.timer.Reset(d)
 	}
 	e.w.req <- f
-	select {
-	case o := <-e.w.done:
-		if !e.timer.Stop() {
-			select {
-			case <-e.timer.C:
-			default:
+	// a hang = no progress of the operation index over two consecutive watchdog periods (a loaded machine can
+	// stall a whole process for a while; a dead-locked call never moves again)
+	last, strikes := atomic.LoadInt32(prog), 0
+	for {
+		select {
+		case o := <-e.w.done:
+			if !e.timer.Stop() {
+				select {
+				case <-e.timer.C:
+				default:
+				}
 			}
+			return o
+		case <-e.timer.C:
+			cur := atomic.LoadInt32(prog)
+			if cur != last {
+				last, strikes = cur, 0
+			} else {
+				strikes++
+			}
+			if strikes >= 2 {
+				e.w = nil
+				return callOutcome{timedOut: true}
+			}
+			e.timer.Reset(d)
 		}
-		return o
-	case <-e.timer.C:
-		e.w = nil
-		return callOutcome{timedOut: true}
 	}
 }
 
@@ -176,6 +193,8 @@ type c14Run struct {
 	prog  int32 // index of the operation in progress (read by the watchdog)
 	stop  bool
 	pool  *c14Pool
+	// what the recorder should have counted, from the observed results
+	nGets, nMiss, nPuts, nRet, nEv int
 }
 
 // c14Pool recycles verif blocks between histories: a bgzf block carries a 64 KiB array, and allocating a fresh
@@ -363,12 +382,26 @@ func (r *c14Run) observe(full bool) {
 	if full {
 		r.emit("l", strconv.Itoa(ln))
 		r.emit("c", strconv.Itoa(cp))
+		r.stats()
+	}
+}
+
+// stats reads the recorder's counters, compares them with what was observed, and queues the model line.
+func (r *c14Run) stats() {
+	if r.rec == nil {
+		return
+	}
+	s := r.rec.Stats()
+	r.emit("s", fmt.Sprintf("%d,%d,%d,%d,%d", s.Gets, s.Misses, s.Puts, s.Retains, s.Evictions))
+	if s.Gets != r.nGets || s.Misses != r.nMiss || s.Puts != r.nPuts || s.Retains != r.nRet || s.Evictions != r.nEv {
+		r.failf("stats", "Stats() = %+v after %d Gets (%d nil), %d Puts (%d retained, %d with a block handed back)", s, r.nGets, r.nMiss, r.nPuts, r.nRet, r.nEv)
 	}
 }
 
 // op executes one harness operation:
-//   P<base>,<used>  Put a fresh block        n<id>,<base>,<used>  allocate   w<id>,<base>  overwrite an owned block
-//   p<id> Put   g<base> Get   k<base> Peek   l c s   r<n> d<n> f<n>
+//
+//	P<base>,<used>  Put a fresh block        n<id>,<base>,<used>  allocate   w<id>,<base>  overwrite an owned block
+//	p<id> Put   g<base> Get   k<base> Peek   l c s   r<n> d<n> f<n>
 func (r *c14Run) op(tok string, readerStyle bool) {
 	a := strings.Split(tok[1:], ",")
 	num := func(i int) int {
@@ -419,6 +452,13 @@ func (r *c14Run) op(tok string, readerStyle bool) {
 		lenBefore := r.in.Len()
 		dup, _ := r.c.Peek(b.Base())
 		ev, kept := r.c.Put(b)
+		r.nPuts++
+		if kept {
+			r.nRet++
+			if ev != nil {
+				r.nEv++
+			}
+		}
 		res := ""
 		switch {
 		case !kept && ev == b:
@@ -485,6 +525,10 @@ func (r *c14Run) op(tok string, readerStyle bool) {
 		r.bases[k] = true
 		pk, pnx := r.c.Peek(k)
 		b := r.c.Get(k)
+		r.nGets++
+		if b == nil {
+			r.nMiss++
+		}
 		if b == nil {
 			r.emit(tok, "-")
 		} else {
@@ -514,12 +558,14 @@ func (r *c14Run) op(tok string, readerStyle bool) {
 					// another member; then ask for the old base again.
 					other := k + 100
 					ev, kept := r.c.Put(b)
+					r.nPuts++
 					r.emit(fmt.Sprintf("p%d", id), map[bool]string{true: "k", false: "r"}[kept])
 					if !kept && ev == b {
 						bgzf.VerifSetBase(b, other)
 						r.bases[other] = true
 						r.emit(fmt.Sprintf("b%d,%d,%d,%d", id, b.Base(), b2i(b.Used()), b.NextBase()), ".")
 						b2 := r.c.Get(k)
+						r.nGets++
 						if b2 != nil && b2.Base() != k {
 							r.emit(tok, strconv.Itoa(r.idOf[b2]))
 							r.failf("get.wrong-base", "Get(%d) returned a block with base %d: an earlier Get(%d) handed the block out but left it indexed, and the owner has since recycled it", k, b2.Base(), k)
@@ -547,10 +593,7 @@ func (r *c14Run) op(tok string, readerStyle bool) {
 	case 'c':
 		r.emit("c", strconv.Itoa(r.in.Cap()))
 	case 's':
-		if r.rec != nil {
-			s := r.rec.Stats()
-			r.emit("s", fmt.Sprintf("%d,%d,%d,%d,%d", s.Gets, s.Misses, s.Puts, s.Retains, s.Evictions))
-		}
+		r.stats()
 	case 'd', 'r', 'f':
 		n := num(0)
 		before := append([]c14Held{}, r.held...)
@@ -628,7 +671,7 @@ func c14Seq(e *c14Env, in c14Input, observeFull bool) *c14Run {
 	}
 	r := newC14Run(e, in.Kind, in.Cap)
 	readerStyle := in.Mode == "reader"
-	o := e.guard(c14CallTimeout, func() {
+	o := e.guard(c14CallTimeout, &r.prog, func() {
 		for i, t := range in.Ops {
 			atomic.StoreInt32(&r.prog, int32(i))
 			r.op(t, readerStyle)
@@ -644,7 +687,7 @@ func c14Seq(e *c14Env, in c14Input, observeFull bool) *c14Run {
 	kn := c14KindName[in.Kind]
 	if o.timedOut {
 		e.pool.out = [2][]bgzf.Block{} // still referenced by the abandoned goroutine
-		i := int(atomic.LoadInt32(&r.prog))
+		i := imin(int(atomic.LoadInt32(&r.prog)), len(in.Ops)-1)
 		t := in.Ops[i]
 		name := map[byte]string{'d': "drop", 'r': "resize", 'f': "free", 'p': "put", 'P': "put", 'g': "get", 'k': "peek"}[t[0]]
 		if name == "" {
@@ -652,7 +695,7 @@ func c14Seq(e *c14Env, in c14Input, observeFull bool) *c14Run {
 		}
 		e.hangs[in.Kind+string(t[0])] = true
 		in.Ops = in.Ops[:i+1]
-		res.fail("c14."+kn+"."+name+".hang", fmt.Sprintf("operation %d (%s) of the history did not return within %v", i, t, c14CallTimeout), in)
+		res.fail("c14."+kn+"."+name+".hang", fmt.Sprintf("operation %d (%s) of the history did not return within %v", i, t, 2*c14CallTimeout), in)
 		return nil
 	}
 	if o.panicked {
@@ -666,6 +709,12 @@ func c14Seq(e *c14Env, in c14Input, observeFull bool) *c14Run {
 		in.Ops = in.Ops[:imin(i+1, len(in.Ops))]
 		res.fail("c14."+kn+".panic:"+topRepoFrame(o.stack), o.panicVal, in)
 		return nil
+	}
+	if len(r.fails) > 0 {
+		// report the history up to the operation at which it was stopped or first judged
+		if i := int(atomic.LoadInt32(&r.prog)); r.stop && i+1 < len(in.Ops) {
+			in.Ops = in.Ops[:i+1]
+		}
 	}
 	for _, f := range r.fails {
 		res.fail(f.Signature, f.What, in)
@@ -740,7 +789,7 @@ func c14Conc(e *c14Env, in c14Input) (line string, ok bool) {
 			for round, co := range plan[i] {
 				// spin barrier per round so that the goroutines' operations really overlap
 				atomic.AddInt32(&arrived[round], 1)
-				for spin := 0; atomic.LoadInt32(&arrived[round]) < need[round] && spin < 200000; spin++ {
+				for spin := 0; atomic.LoadInt32(&arrived[round]) < need[round] && spin < 60000; spin++ {
 				}
 				a := strings.Split(co.tok[1:], ",")
 				n, _ := strconv.Atoi(a[0])
@@ -860,7 +909,7 @@ func c14Alphabet(reduced bool, recorder bool) []string {
 		return a
 	}
 	if reduced {
-		return append(a, "d1", "r1")
+		return append(a, "d1")
 	}
 	return append(a, "d1", "d2", "r1", "r2", "r3", "f1", "f2")
 }
@@ -978,7 +1027,7 @@ func c14Enum(e *c14Env, in c14Input, alpha []string, d int, tag string) {
 
 func checkC14(c *ctx) {
 	res := c.res
-	res.Rule = "seq: ALL histories of the stated length (quick: 4 over the full alphabet, 5 over Put/Get/Drop(1)/Resize(1); thorough: 5 and 6) over " +
+	res.Rule = "seq: ALL histories of the stated length (quick: 4 over the full alphabet, 5 over Put/Get/Drop(1); thorough: 5 and 6) over " +
 		"{Put(fresh block, base in {0,100,200}, used/unused), Get(base), Drop(1,2), Resize(1,2,3), Free(1,2)} " +
 		"x capacity 1..3 x {LRU,FIFO,Random} (StatsRecorder variants: Put/Get alphabet, Stats compared), Len/Cap/Peek(all bases) observed after every operation; " +
 		"reader: random histories of 30-120 operations in reader style (owned blocks are Put, handed-back blocks are overwritten with VerifSetBase and re-used; cap+1..cap+3 bases, capacity 1..4); " +
@@ -986,6 +1035,34 @@ func checkC14(c *ctx) {
 		"A history is non-trivial when it contains a Put followed by another Put or by Get/Drop/Resize/Free; distinct = distinct (kind,capacity,operation list)."
 	main := newC14Env(c, res)
 	defer main.close()
+	if os.Getenv("C14_CHILD") == "conc-replay" {
+		var in c14Input
+		if js, err := os.ReadFile(os.Getenv("C14_PROGRESS")); err == nil && json.Unmarshal(js, &in) == nil {
+			// a schedule cannot be replayed exactly: run the same plan many times
+			var lines []string
+			var ins []c14Input
+			for i := 0; i < 3000; i++ {
+				if line, ok := c14Conc(main, in); ok {
+					lines = append(lines, line)
+					ins = append(ins, in)
+				} else {
+					break
+				}
+			}
+			c14Lin(main, lines, ins)
+		}
+		return
+	}
+	if os.Getenv("C14_CHILD") == "conc" {
+		for _, k := range strings.Split(os.Getenv("C14_HANGS"), ",") {
+			if k != "" {
+				main.hangs[k] = true
+			}
+		}
+		c.rnd = newRand(c.seed ^ 0x5eed_c04c)
+		c14ConcStream(c, main)
+		return
+	}
 	if c.replay != "" {
 		var in c14Input
 		if err := loadReplay(c.replay, &in); err != nil {
@@ -1045,7 +1122,7 @@ func checkC14(c *ctx) {
 			job(c14Input{Mode: "seq", Kind: k, Cap: cp}, c14Alphabet(false, false), depth, fmt.Sprintf("%s%d/full/", k, cp))
 			res.hist(fmt.Sprintf("seq: (kind,capacity) pairs enumerated exhaustively to length %d, full alphabet", depth))
 			job(c14Input{Mode: "seq", Kind: k, Cap: cp}, c14Alphabet(true, false), rdepth, fmt.Sprintf("%s%d/red/", k, cp))
-			res.hist(fmt.Sprintf("seq: (kind,capacity) pairs enumerated exhaustively to length %d, Put/Get/Drop(1)/Resize(1)", rdepth))
+			res.hist(fmt.Sprintf("seq: (kind,capacity) pairs enumerated exhaustively to length %d, Put/Get/Drop(1)", rdepth))
 		}
 	}
 	for _, k := range []string{"SL", "SF", "SR"} {
@@ -1081,6 +1158,21 @@ func checkC14(c *ctx) {
 	if c.thorough() {
 		nReader = 300000
 	}
+	// the witness of the recorded FIFO finding (Lean: fifo_get_returns_requested_base_witness) is replayed on the
+	// implementation on every run; if it stops failing there, model and code have parted
+	for _, k := range []string{"F", "SF"} {
+		in := c14Input{Mode: "reader", Kind: k, Cap: 1, Ops: []string{"q7,0,0", "g0"}}
+		before := res.NFailures
+		if r := c14Seq(main, in, false); r != nil {
+			main.batch.add(in, r)
+		}
+		res.eval("witness"+k, true)
+		res.hist("reader: witness of the FIFO finding")
+		if res.NFailures == before && !main.hangs[k+"g"] {
+			res.disagree("C14.witness", strings.Join(in.Ops, " "), "Get(0) after recycling no longer returns a block of another base",
+				"theorem fifo_get_returns_requested_base_witness says it does")
+		}
+	}
 	for i := 0; i < nReader; i++ {
 		in := c14GenReader(c.rnd)
 		r := c14Seq(main, in, false)
@@ -1097,8 +1189,17 @@ func checkC14(c *ctx) {
 	main.batch.flush("C14.reader", 8)
 	lap("reader-style histories")
 
-	// ---- concurrent histories
-	nConc := 12000
+	// ---- concurrent histories, in a child process: a data race inside a cache makes the Go runtime abort
+	// ("fatal error: concurrent map read and map write"), which cannot be recovered in-process
+	c14ConcInChild(c, main, nil)
+	lap("concurrent histories")
+}
+
+// c14ConcStream runs the concurrent histories (in the child process).
+func c14ConcStream(c *ctx, main *c14Env) {
+	res := main.res
+	progress := os.Getenv("C14_PROGRESS")
+	nConc := 6000
 	if c.thorough() {
 		nConc = 200000
 	}
@@ -1118,6 +1219,10 @@ func checkC14(c *ctx) {
 			res.hist("skipped: contains an operation already seen to hang")
 			continue
 		}
+		if progress != "" {
+			js, _ := json.Marshal(in)
+			os.WriteFile(progress, js, 0o644)
+		}
 		line, ok := c14Conc(main, in)
 		res.eval(fmt.Sprint("conc", i), true)
 		res.hist(fmt.Sprintf("conc: %s", c14KindName[in.Kind]))
@@ -1131,7 +1236,197 @@ func checkC14(c *ctx) {
 		}
 	}
 	c14Lin(main, lines, ins)
-	lap("concurrent histories")
+	c14Stress(c, main, progress)
+}
+
+// c14Stress hammers one cache from 8 goroutines without recording a history.  What it can show: the Go runtime's
+// own detection of unsynchronised map access (fatal, reported by the parent), a call that never returns, a block
+// handed to two owners, Len() > Cap().
+func c14Stress(c *ctx, main *c14Env, progress string) {
+	res := main.res
+	per := 15000
+	if c.thorough() {
+		per = 1500000
+	}
+	for _, kind := range []string{"L", "F", "R", "SL", "SF", "SR"} {
+		for _, cp := range []int{1, 3} {
+			in := c14Input{Mode: "stress", Kind: kind, Cap: cp}
+			if main.hangs[kind+"d"] || main.hangs[kind+"r"] {
+				res.hist("skipped: contains an operation already seen to hang")
+				continue
+			}
+			if progress != "" {
+				js, _ := json.Marshal(in)
+				os.WriteFile(progress, js, 0o644)
+			}
+			cch, inner, _ := c14New(kind, cp)
+			const G = 8
+			// every goroutine owns its blocks; a block changes owner only through the cache
+			var twice, lenBad int32
+			owner := make([]int32, G*4) // block -> 1 + goroutine holding it, 0 = in the cache
+			blocks := make([]bgzf.Block, G*4)
+			idOf := map[bgzf.Block]int{}
+			for i := range blocks {
+				blocks[i] = bgzf.NewVerifBlock(int64(100*(i%5)), i%3 != 0, int64(100*(i%5)+100))
+				idOf[blocks[i]] = i
+				owner[i] = int32(1 + i/4)
+			}
+			var wg sync.WaitGroup
+			o := guardTimeout(20*c14CallTimeout, func() {
+				for g := 0; g < G; g++ {
+					wg.Add(1)
+					go func(g int) {
+						defer wg.Done()
+						rnd := newRand(c.seed*131 + int64(g))
+						mine := []int{4 * g, 4*g + 1, 4*g + 2, 4*g + 3}
+						take := func(b bgzf.Block) {
+							id := idOf[b]
+							if !atomic.CompareAndSwapInt32(&owner[id], 0, int32(1+g)) {
+								if !(strings.HasSuffix(kind, "F") && b.Used()) {
+									atomic.StoreInt32(&twice, 1)
+								}
+								return
+							}
+							mine = append(mine, id)
+						}
+						for i := 0; i < per; i++ {
+							switch x := rnd.intn(100); {
+							case x < 30 && len(mine) > 0:
+								j := rnd.intn(len(mine))
+								id := mine[j]
+								atomic.StoreInt32(&owner[id], 0)
+								ev, kept := cch.Put(blocks[id])
+								if kept {
+									mine = append(mine[:j], mine[j+1:]...)
+									if ev != nil {
+										take(ev)
+									}
+								} else {
+									atomic.StoreInt32(&owner[id], int32(1+g))
+								}
+							case x < 55:
+								if b := cch.Get(int64(100 * rnd.intn(5))); b != nil {
+									take(b)
+								}
+							case x < 85:
+								cch.Peek(int64(100 * rnd.intn(5)))
+							case x < 92:
+								if l, cp := inner.Len(), inner.Cap(); l > cp+G {
+									// Len and Cap are two calls: allow for Resize in between
+									atomic.StoreInt32(&lenBad, 1)
+								}
+							case x < 96:
+								inner.Drop(1) // dropped blocks are garbage: their owner entry stays 0
+							default:
+								inner.Resize(1 + rnd.intn(3))
+							}
+						}
+					}(g)
+				}
+				wg.Wait()
+			})
+			res.eval(fmt.Sprint("stress", kind, cp), true)
+			res.hist("stress: 8 goroutines on one " + c14KindName[kind])
+			kn := c14KindName[kind]
+			switch {
+			case o.timedOut:
+				res.fail("c14."+kn+".concurrent.hang", fmt.Sprintf("8 goroutines x %d operations did not finish within %v", per, 20*c14CallTimeout), in)
+				return
+			case o.panicked:
+				res.fail("c14."+kn+".concurrent.panic:"+topRepoFrame(o.stack), o.panicVal, in)
+			}
+			if twice != 0 && !strings.HasSuffix(kind, "F") {
+				res.fail("c14."+kn+".concurrent.block-handed-out-twice", "a block was handed to a second owner while the first still held it", in)
+			}
+			if lenBad != 0 {
+				res.fail("c14."+kn+".concurrent.len-gt-cap", "Len() exceeded Cap() by more than the number of goroutines", in)
+			}
+		}
+	}
+}
+
+func c14ConcInChild(c *ctx, main *c14Env, replay *c14Input) {
+	res := main.res
+	out, err1 := os.CreateTemp("", "c14-conc-*.json")
+	prog, err2 := os.CreateTemp("", "c14-prog-*.json")
+	if err1 != nil || err2 != nil {
+		res.note("concurrent stream: cannot create temporary files; running in-process")
+		c14ConcStream(c, main)
+		return
+	}
+	out.Close()
+	prog.Close()
+	defer os.Remove(out.Name())
+	defer os.Remove(prog.Name())
+	var hangs []string
+	for k := range main.hangs {
+		hangs = append(hangs, k)
+	}
+	cmd := exec.Command(os.Args[0], "C14", "-tier", c.tier, "-seed", fmt.Sprint(c.seed), "-driver", c.driver, "-out", out.Name())
+	mode := "conc"
+	if replay != nil {
+		mode = "conc-replay"
+		js, _ := json.Marshal(replay)
+		os.WriteFile(prog.Name(), js, 0o644)
+	}
+	cmd.Env = append(os.Environ(), "C14_CHILD="+mode, "C14_PROGRESS="+prog.Name(), "C14_HANGS="+strings.Join(hangs, ","))
+	var stderr bytes.Buffer
+	cmd.Stderr = &stderr
+	done := make(chan error, 1)
+	if err := cmd.Start(); err != nil {
+		res.note("concurrent stream: cannot start child: %v; running in-process", err)
+		c14ConcStream(c, main)
+		return
+	}
+	go func() { done <- cmd.Wait() }()
+	limit := 10 * time.Minute
+	if c.thorough() {
+		limit = 2 * time.Hour
+	}
+	var err error
+	select {
+	case err = <-done:
+	case <-time.After(limit):
+		cmd.Process.Kill()
+		err = fmt.Errorf("child exceeded %v", limit)
+	}
+	if err == nil {
+		var child Result
+		js, rerr := os.ReadFile(out.Name())
+		if rerr == nil {
+			rerr = json.Unmarshal(js, &child)
+		}
+		if rerr != nil {
+			res.disagree("C14.lin", "(child result unreadable)", "", rerr.Error())
+			return
+		}
+		(&c14Env{res: &child}).mergeInto(res)
+		return
+	}
+	// the child died: the runtime's message is the failure, the history in progress is the input
+	var in c14Input
+	if js, rerr := os.ReadFile(prog.Name()); rerr == nil {
+		json.Unmarshal(js, &in)
+	}
+	msg, frame := err.Error(), "unknown"
+	lines := strings.Split(stderr.String(), "\n")
+	for i, l := range lines {
+		if strings.HasPrefix(l, "fatal error: ") || strings.HasPrefix(l, "panic: ") {
+			msg = l
+			for _, m := range lines[i:] {
+				if strings.HasPrefix(m, "github.com/biogo/hts/") {
+					frame = strings.TrimPrefix(m, "github.com/biogo/hts/")
+					if j := strings.LastIndex(frame, "("); j > 0 {
+						frame = frame[:j]
+					}
+					break
+				}
+			}
+			break
+		}
+	}
+	res.eval("conc-crash", true)
+	res.fail("c14."+c14KindName[in.Kind]+".concurrent.crash:"+frame, "the process running the concurrent histories died: "+msg, in)
 }
 
 // c14Lin sends recorded concurrent histories to the driver; a history without a linearization is a failure
@@ -1259,18 +1554,7 @@ func c14Replay(e *c14Env, in c14Input) {
 	case "conc-recorded":
 		c14Lin(e, []string{in.Line}, []c14Input{in})
 	case "conc":
-		// a schedule cannot be replayed exactly: run the same plan many times
-		var lines []string
-		var ins []c14Input
-		for i := 0; i < 2000; i++ {
-			if line, ok := c14Conc(e, in); ok {
-				lines = append(lines, line)
-				ins = append(ins, in)
-			} else {
-				break
-			}
-		}
-		c14Lin(e, lines, ins)
+		c14ConcInChild(e.c, e, &in)
 	default:
 		c14Seq(e, in, in.Mode == "seq")
 	}
